@@ -359,7 +359,7 @@ pub fn strategy(g: &GenCfg) -> BoxedStrategy<Case> {
     (proptest::collection::vec(co, 2..=10), proptest::collection::vec(th, 0..=2), 1i64..=3, gen::config(&g2), 1u8..=2, gen::schedule(&g2, false))
         .prop_map(|(mut actors, ths, wave, (workers, _p, feat), pool, sched)| {
             actors.extend(ths);
-            Case { fam: "local".into(), workers, pool, feat, cfg: vec![wave], actors, sched }
+            Case { fam: "local".into(), workers, pool, feat, cfg: vec![wave], actors, sched, weak: 0 }
         })
         .boxed()
 }
